@@ -50,6 +50,7 @@ fn main() {
     let seed: u64 = a.get(1).and_then(|x| x.parse().ok()).unwrap_or(1);
     let n: usize = a.get(2).and_then(|x| x.parse().ok()).unwrap_or(2000);
     std::panic::set_hook(Box::new(|_| {}));
+    let trace = std::env::var("VX_TRACE").is_ok();
     let mut r = Rng(seed.wrapping_mul(0x9E3779B97F4A7C15) | 1);
     let mut distinct = std::collections::HashSet::new();
     for case in 0..n {
@@ -63,6 +64,7 @@ fn main() {
         };
         cuts.sort(); cuts.dedup();
         distinct.insert(s.clone());
+        if trace { println!("TRY {{\"case\":{},\"stream_hex\":\"{}\",\"cuts\":\"{}\"}}", case, to_hex(&s), cuts.iter().map(|c| c.to_string()).collect::<Vec<_>>().join(",")); use std::io::Write; std::io::stdout().flush().ok(); }
         let expect = ref_outcomes(&s);
         let m = expect.len() + 2;
         let b = real_blocking(&s, &cuts, m);
